@@ -203,3 +203,15 @@ Definition mon_announcer (inp obs : list Z) : bool :=
   | 2 :: exp, 2 :: o => gaps_close exp o
   | _, _ => false
   end.
+
+(* ---- the stopped event (torrent_stop.go: trackers with HasAnnounced; kind 1504) ----
+   a tracker has announced in this run once one of its replies was an accepted announce *)
+Inductive treply := TAccepted | TFailureReason | THttpError.
+Definition tracker_accepted (rs : list treply) : bool :=
+  existsb (fun r => match r with TAccepted => true | _ => false end) rs.
+(* in = [mode] (0 the tracker accepts | 1 failure reason | 2 HTTP 500); obs = [started seen; stopped seen] *)
+Definition run_stop_event (inp : list Z) : list Z :=
+  match inp with
+  | [mode] => [1; b2z (tracker_accepted [if mode =? 0 then TAccepted else if mode =? 1 then TFailureReason else THttpError])]
+  | _ => [-779]
+  end.
